@@ -267,7 +267,14 @@ theorem canonGraphFrom_iso {g : G} (hg : WF g) {s : St} (hw : s.work ≠ []) : I
   rw [e]
   exact ⟨_, _, leaf_relabel hg (allLeaves_perm hg hw l hl)⟩
 
-theorem init_work (g : G) : (init g).work ≠ [] := by simp [init, initSt]
+theorem initSt_work (g : G) {k : Nat} (hk : 1 ≤ k) (cls : Nat → Nat) : (initSt g k cls).work ≠ [] := by
+  show List.range k ≠ []
+  intro h
+  have := congrArg List.length h
+  simp at this
+  omega
+
+theorem init_work (g : G) : (init g).work ≠ [] := initSt_work g (Nat.le_refl 1) _
 
 theorem canonGraph_iso {g : G} (hg : WF g) : Iso g (canonGraph g) := canonGraphFrom_iso hg (init_work g)
 
